@@ -98,6 +98,9 @@ func (x *Exec) execInstr(fr *Frame, in ssa.Instruction, reach *Term, st *State) 
 		x.doMakeSlice(fr, in, reach, st)
 	case *ssa.MakeMap:
 		x.doMakeMap(fr, in, st)
+	case *ssa.MakeChan:
+		// a channel is an opaque fresh reference (its buffer and blocking behaviour are not modelled)
+		fr.vals[in] = scalar(in.Type(), x.newRef(st))
 	case *ssa.MapUpdate:
 		x.doMapUpdate(fr, in, reach, st)
 	case *ssa.Lookup:
@@ -661,12 +664,7 @@ func (x *Exec) doMakeClosure(fr *Frame, in *ssa.MakeClosure, st *State) {
 // case and the value it received (reference-sorted values only), so that loop `step` clauses can speak
 // about "the message handled in this iteration".
 func (x *Exec) doSelect(fr *Frame, in *ssa.Select, reach *Term, st *State) {
-	for _, s := range in.States {
-		if s.Dir != types.RecvOnly {
-			panic("select with a send case is outside the modelled subset")
-		}
-	}
-	addUnique(&x.report.Abstracted, "select over channel receives (any case, arbitrary received values)")
+	addUnique(&x.report.Abstracted, "select: any case may be chosen; received values are arbitrary; a chosen send is recorded in the ghost log SENT (if declared); blocking and scheduling are not modelled")
 	idx := x.vc.fresh("sel.idx", bvSort(64))
 	lo := int64(0)
 	if !in.Blocking {
@@ -676,6 +674,25 @@ func (x *Exec) doSelect(fr *Frame, in *ssa.Select, reach *Term, st *State) {
 	out := &Sym{T: in.Type(), L: []*Term{idx, x.vc.fresh("sel.ok", SBool)}}
 	var last *Term
 	for i, s := range in.States {
+		if s.Dir == types.SendOnly {
+			// a send case: if it is the chosen one, the value goes to the channel - recorded in SENT.ch / SENT.msg
+			// (reference-sorted values, e.g. interfaces; others are recorded as 0)
+			if x.isGhost("SENT.n") {
+				chosen := mkEq(idx, mkBVu(uint64(i), 64))
+				n := x.hp.ghostGet(st, "SENT.n")
+				var msg *Term = mkInt64(0)
+				if sv := x.get(fr, s.Send); sv.LV == nil && len(sv.L) == 1 && sv.L[0].Sort == SInt {
+					msg = sv.L[0]
+				}
+				ch := x.get(fr, s.Chan).term()
+				// (written as a store of a conditional value: no conditional between arrays)
+				och, omsg := x.hp.ghostGet(st, "SENT.ch"), x.hp.ghostGet(st, "SENT.msg")
+				st.ghost["SENT.ch"] = x.vc.name("G.SENT.ch", mkStore(och, n, mkIte(chosen, ch, mkSelect(och, n))))
+				st.ghost["SENT.msg"] = x.vc.name("G.SENT.msg", mkStore(omsg, n, mkIte(chosen, msg, mkSelect(omsg, n))))
+				st.ghost["SENT.n"] = x.vc.name("G.SENT.n", mkIte(chosen, bvBin("bvadd", n, mkBVu(1, 64)), n))
+			}
+			continue
+		}
 		et := s.Chan.Type().Underlying().(*types.Chan).Elem()
 		v := x.freshSym(et, fmt.Sprintf("sel.recv%d", i), st.ctr, reach)
 		out.L = append(out.L, v.L...)
